@@ -413,6 +413,59 @@ def on_write_stdout(self, trace_no, line):
 '''
 
 
+# the debugger writes to a private stream, never to sys.stdout (modelled: debugger text is not a Write label)
+PIN_STDINOUT_WRITE = '''
+def write(self, s):
+    self._prompt_text += s
+    return len(s)
+'''
+PIN_PDB_FACTORY = '''
+def _factory():
+    stdio = StdInOut(prompt_func=prompt_func)
+    pdb = CustomizedPdb(cmdloop_hook=cmdloop_hook, stdin=stdio, stdout=stdio)
+    stdio.prompt_end = pdb.prompt
+    return pdb.trace_dispatch
+'''
+PIN_PDB_INIT_SUPER = "super().__init__(stdin=stdin, stdout=stdout, nosigint=True, readrc=False)"
+PIN_REGISTRAR = '''
+@hookimpl
+async def on_write_stdout(self, context, event):
+    assert context.run_arg
+    stdout_info = StdoutInfo(run_no=context.run_arg.run_no, trace_no=event.trace_no, text=event.text, written_at=event.written_at)
+    await context.pubsub.publish('stdout', stdout_info)
+'''
+
+
+def find_any_def(tree, name: str, cls: str | None = None, outer: str | None = None):
+    """a (possibly async / nested) def, found exactly once"""
+    scope = tree
+    if cls is not None:
+        scope = next((n for n in tree.body if isinstance(n, ast.ClassDef) and n.name == cls), None)
+    if outer is not None:
+        scope = next((n for n in tree.body if isinstance(n, ast.FunctionDef) and n.name == outer), None)
+    if scope is None:
+        raise Untranslatable(f'{cls or outer} not found')
+    ds = [n for n in scope.body if isinstance(n, (ast.FunctionDef, ast.AsyncFunctionDef)) and n.name == name]
+    if len(ds) != 1:
+        raise Untranslatable(f'{name} not found exactly once in {cls or outer}')
+    return ds[0]
+
+
+def canon_any(node) -> str:
+    import copy
+    n = copy.deepcopy(node)
+    n.body = strip_doc(n.body) or [ast.Pass()]
+    n.returns = None
+    for a in n.args.posonlyargs + n.args.args + n.args.kwonlyargs:
+        a.annotation = None
+    return ast.dump(n, annotate_fields=False)
+
+
+def pin_any(node, expected_src: str, what: str):
+    if canon_any(node) != canon_any(ast.parse(expected_src).body[0]):
+        raise Untranslatable(f'{what} no longer has the modelled shape:\n  now: {ast.unparse(node)[:400]}')
+
+
 def translate(repo: Path) -> str:
     repo = Path(repo)
     src_plugin = (repo / PEEK_PLUGIN).read_text()
@@ -484,6 +537,18 @@ def translate(repo: Path) -> str:
     pin(find_def(tp, '_key_factory', 'PeekStdout'), PIN_KEY_FACTORY, 'PeekStdout._key_factory')
     pin(find_def(tp, '_callback', 'PeekStdout'), PIN_CALLBACK, 'PeekStdout._callback')
     pin(find_def(tr, 'on_write_stdout', 'Repeater'), PIN_ON_WRITE_STDOUT, 'Repeater.on_write_stdout')
+
+    # ---- the debugger's stream and the main-process registrar
+    ts = ast.parse((repo / 'nextline/spawned/plugin/plugins/pdb_/stream.py').read_text())
+    tf = ast.parse((repo / 'nextline/spawned/plugin/plugins/pdb_/factory.py').read_text())
+    tc = ast.parse((repo / 'nextline/spawned/plugin/plugins/pdb_/custom.py').read_text())
+    tg = ast.parse((repo / 'nextline/plugin/plugins/registrars/stdout.py').read_text())
+    pin_any(find_any_def(ts, 'write', cls='StdInOut'), PIN_STDINOUT_WRITE, 'StdInOut.write')
+    pin_any(find_any_def(tf, '_factory', outer='Factory'), PIN_PDB_FACTORY, 'pdb_/factory.py:Factory._factory')
+    init = find_any_def(tc, '__init__', cls='CustomizedPdb')
+    if not init.body or ast.dump(init.body[0], annotate_fields=False) != ast.dump(ast.parse(PIN_PDB_INIT_SUPER).body[0], annotate_fields=False):
+        raise Untranslatable('CustomizedPdb.__init__ no longer passes its private stdin/stdout to Pdb first')
+    pin_any(find_any_def(tg, 'on_write_stdout', cls='StdoutRegistrar'), PIN_REGISTRAR, 'StdoutRegistrar.on_write_stdout')
 
     header = (
         '(** GENERATED by translate/purefuns_peek.py -- do not edit.\n'
